@@ -9,6 +9,7 @@ import copy
 import io
 import json
 import logging
+import os
 import re
 import sys
 import types
@@ -183,8 +184,11 @@ class RuleSet(object):
                 "ignored": [self.present], "ignored-missing": [self.present, self.absent1]}[r["dep"]]
         # a content template: none, one that renders, one that jinja2 cannot compile
         content = [None, "rule {{rid}} says {{pad}}", "{% if %}broken", {"KEY_1": "by key {{rid}}"}][(i + r["key"]) % 4]
-        plugins.rule(*deps, tags=["t%d" % i, "common"], links={"kcs": ["https://example.test/%d" % i]},
-                     content=content)(body)
+        # every other rule is declared through a rule type of its own that brings type-level tags (the
+        # documented class attribute); the tags given in each declaration differ from rule to rule
+        (TypedRule if i % 2 == 0 else plugins.rule)(*deps, tags=["t%d" % i, "common"],
+                                                    links={"kcs": ["https://example.test/%d" % i]},
+                                                    content=content)(body)
         if r["dep"] in ("ignored", "ignored-missing"):
             dr.add_ignore(body, self.present)
         if not r["enabled"]:
@@ -268,7 +272,10 @@ class RuleSet(object):
                     "keyok": entry.get("key") == wantkey and det.get(kn) == wantkey and det.get("type") == typ,
                     "compok": entry.get("component") == dr.get_name(f),
                     # compared with what was DECLARED in the decorator, not with what dr now says
-                    "tagsok": sorted(entry.get("tags") or []) == sorted(["t%d" % i, "common"]),
+                    # (a rule of the typed kind may or may not also show its type's tags: not demanded)
+                    "tagsok": set(["t%d" % i, "common"]) <= set(entry.get("tags") or []) <=
+                    set(["t%d" % i, "common"] + (list(TYPE_TAGS) if i % 2 == 0 else [])) and
+                    len(entry.get("tags") or []) == len(set(entry.get("tags") or [])),
                     "linksok": (entry.get("links") or {}) == {"kcs": ["https://example.test/%d" % i]},
                     "idok": entry.get("%s_id" % typ) == "%s|%s" % (mod, wantkey)})
         for s in resp.get("skips", []) or []:
@@ -305,6 +312,14 @@ class RuleSet(object):
                 per[i]["excs"] = len(lst)
                 per[i]["tb"] = all(bool(broker.tracebacks.get(e)) for e in lst)
         return per
+
+
+TYPE_TAGS = ("typed",)
+
+
+class TypedRule(plugins.rule):
+    """A rule type with tags of its own."""
+    tags = list(TYPE_TAGS)
 
 
 EVALS = ["single", "insights", "json", "yaml", "single-incr"]
@@ -388,10 +403,13 @@ def _shallow(resp):
     return r
 
 
-def ctor_cell(c, limit, n):
-    """One cell of the constructor table: class x key kind x kwargs kind x size class."""
+def ctor_cell(c, limit, n, layers=None):
+    """One cell of the constructor table: class x key kind x kwargs kind x size class.
+    layers: this process got its limit from the configuration sources (nothing is set here); the cell is
+    sized around `limit`, which is only where the driver aims - the verdict uses layers and the measured size."""
     old_limit = settings.defaults["max_detail_length"]
-    settings.defaults["max_detail_length"] = limit
+    if layers is None:
+        settings.defaults["max_detail_length"] = limit
     try:
         cls = c["cls"]
         haskey = cls in KEYNAME
@@ -438,6 +456,11 @@ def ctor_cell(c, limit, n):
         kwkind = c["kw"]
         if cls == "metadata_key" or (kwkind == "keyname" and not keyname):
             kwkind = "plain"
+        if layers is not None:
+            return {"id": "ctorconf#%d/%s" % (n, "-".join(map(str, layers))), "rules": [], "limit": limit,
+                    "events": [{"ev": "ctorconf", "cls": cls, "key": c["key"], "haskey": bool(haskey and cls != "metadata"),
+                                "kw": kwkind, "sized": bool(sized), "len": length, "layers": list(layers),
+                                "seen": old_limit, "got": got}]}
         return {"id": "ctor#%d/L%d" % (n, limit), "rules": [], "limit": limit,
                 "events": [{"ev": "ctor", "cls": cls, "key": c["key"], "haskey": bool(haskey and cls != "metadata"),
                             "kw": kwkind, "sized": bool(sized), "len": length, "limit": limit, "got": got}]}
@@ -445,10 +468,60 @@ def ctor_cell(c, limit, n):
         settings.defaults["max_detail_length"] = old_limit
 
 
+def conf_children(cells, seed):
+    """The limit configured through the documented sources: ~/.local/insights.yaml and ./.insights.yaml
+    (the system-wide /etc/insights.yaml is not written to; if the machine has one, nothing is run).  One
+    fresh interpreter per combination, HOME and the working directory in a scratch directory."""
+    import random
+    import shutil
+    import subprocess
+    import tempfile
+    if os.path.exists("/etc/insights.yaml"):
+        return []
+    rng = random.Random(seed)
+    out = []
+    pkg = settings.defaults["max_detail_length"]
+    combos = [(0, 0), (0, 240), (260, 0), (250, 310), (330, 270), (rng.randrange(200, 400), rng.randrange(200, 400))]
+    for k, (user, here) in enumerate(combos):
+        tmp = tempfile.mkdtemp(prefix="verif-rules-conf-")
+        try:
+            home, cwd = os.path.join(tmp, "home"), os.path.join(tmp, "cwd")
+            os.makedirs(os.path.join(home, ".local"))
+            os.makedirs(cwd)
+            # other sections and other keys of the same section ride along; a source may also be silent
+            for path, val, other in ((os.path.join(home, ".local", "insights.yaml"), user, "cli:\n  verbose: 1\n"),
+                                     (os.path.join(cwd, ".insights.yaml"), here, "web:\n  port: 8081\n")):
+                with open(path, "w") as f:
+                    if val:
+                        f.write("defaults:\n  log_level: DEBUG\n  max_detail_length: %d\n" % val)
+                    elif k % 2:
+                        f.write("defaults:\n  log_level: DEBUG\n")
+                    f.write(other)
+            job = os.path.join(tmp, "job.json")
+            res = os.path.join(tmp, "res.json")
+            with open(job, "w") as f:
+                json.dump({"confchild": True, "layers": [pkg, 0, user, here], "cells": cells, "k": k}, f)
+            env = dict(os.environ, HOME=home)
+            subprocess.run([sys.executable, os.path.abspath(__file__), job, res], cwd=cwd, env=env,
+                           stdin=subprocess.DEVNULL, stdout=subprocess.DEVNULL, stderr=subprocess.DEVNULL, timeout=300)
+            with open(res) as f:
+                out.extend(json.load(f)["traces"])
+        finally:
+            shutil.rmtree(tmp, True)
+    return out
+
+
 def main():
     logging.disable(logging.CRITICAL)
     with open(sys.argv[1]) as f:
         inp = json.load(f)
+    if inp.get("confchild"):
+        layers = inp["layers"]
+        aim = [x for x in layers if x][-1]
+        traces = [ctor_cell(c, aim, inp["k"] * 1000 + i, layers=layers) for i, c in enumerate(inp["cells"])]
+        with open(sys.argv[2], "w") as f:
+            json.dump({"traces": traces}, f, separators=(",", ":"))
+        return
     default_limit = settings.defaults["max_detail_length"]
     traces = []
     n = inp.get("seed", 0)
@@ -460,6 +533,9 @@ def main():
     for k, c in enumerate(inp.get("ctor", [])):
         for limit in (default_limit, 200):
             traces.append(ctor_cell(c, limit, k))
+    if inp.get("ctor"):
+        plain = [c for c in inp["ctor"] if c["kw"] == "plain" and c["key"] == "valid"]
+        traces.extend(conf_children(plain, inp.get("seed", 0)))
     with open(sys.argv[2], "w") as f:
         json.dump({"traces": traces}, f, separators=(",", ":"))
 
